@@ -40,6 +40,64 @@ impl Ord for TrainDispNext {
     }
 }
 
+/// Verification hook H1 (feature `nrel_altrios_verif`, default off, adds code only): an observer that
+/// records the dispatcher's internal state (per-link authority stacks, blocked links, every train's
+/// dispatch state) into a thread-local sink after every train move, after every outer-loop iteration
+/// and once before `run_dispatch` returns.  Nothing is recorded unless `start()` was called on the thread.
+#[cfg(feature = "nrel_altrios_verif")]
+pub mod verif_hook {
+    use super::*;
+    use std::cell::RefCell;
+
+    #[derive(Debug, Clone)]
+    pub struct DispSnapshot {
+        /// "advance" (a train moved), "rewind", "iter" (end of an outer-loop iteration),
+        /// "final" (before returning Ok), "stuck" (before returning the stuck-trains error)
+        pub label: &'static str,
+        /// train selected in this outer-loop iteration (0 for "final"/"stuck")
+        pub train_idx_curr: usize,
+        pub link_disp_auths: Vec<Vec<DispAuth>>,
+        pub links_blocked: Vec<TrainIdx>,
+        pub train_disps: Vec<TrainDisp>,
+        /// trains parked in `train_idxs_blocked`
+        pub train_idxs_blocked: Vec<TrainIdx>,
+    }
+
+    thread_local! {
+        static SINK: RefCell<Option<Vec<DispSnapshot>>> = const { RefCell::new(None) };
+    }
+
+    /// Start recording on this thread (clears anything recorded before).
+    pub fn start() {
+        SINK.with(|s| *s.borrow_mut() = Some(Vec::new()));
+    }
+    /// Stop recording and return what was recorded since `start()`.
+    pub fn take() -> Vec<DispSnapshot> {
+        SINK.with(|s| s.borrow_mut().take().unwrap_or_default())
+    }
+    pub(super) fn observe(
+        label: &'static str,
+        train_idx_curr: usize,
+        link_disp_auths: &[Vec<DispAuth>],
+        links_blocked: &[TrainIdx],
+        train_disps: &[TrainDisp],
+        train_idxs_blocked: &[TrainIdx],
+    ) {
+        SINK.with(|s| {
+            if let Some(v) = s.borrow_mut().as_mut() {
+                v.push(DispSnapshot {
+                    label,
+                    train_idx_curr,
+                    link_disp_auths: link_disp_auths.to_vec(),
+                    links_blocked: links_blocked.to_vec(),
+                    train_disps: train_disps.to_vec(),
+                    train_idxs_blocked: train_idxs_blocked.to_vec(),
+                });
+            }
+        });
+    }
+}
+
 /// Checks deadlock for all trains in the simulation after one train was moved.
 /// Returns true if there is deadlock (at least one free path was not successfully modified), false otherwise
 fn check_deadlock(
@@ -168,6 +226,15 @@ pub fn run_dispatch<N: AsRef<[Link]>>(
                 &mut links_blocked,
                 network,
             ) {
+                #[cfg(feature = "nrel_altrios_verif")]
+                verif_hook::observe(
+                    "advance",
+                    train_idx_curr.idx(),
+                    &link_disp_auths,
+                    &links_blocked,
+                    &train_disps,
+                    &train_idxs_blocked,
+                );
                 (has_deadlock, train_idx_begin) = check_deadlock(
                     &mut train_disps,
                     &links_blocked,
@@ -200,6 +267,15 @@ pub fn run_dispatch<N: AsRef<[Link]>>(
                 // If there was deadlock and the train is blocked, rewind and break
                 if has_deadlock && train_curr.is_blocked() {
                     train_curr.rewind(&mut link_disp_auths, &mut links_blocked, network);
+                    #[cfg(feature = "nrel_altrios_verif")]
+                    verif_hook::observe(
+                        "rewind",
+                        train_idx_curr.idx(),
+                        &link_disp_auths,
+                        &links_blocked,
+                        &train_disps,
+                        &train_idxs_blocked,
+                    );
                     (has_deadlock, train_idx_begin) = check_deadlock(
                         &mut train_disps,
                         &links_blocked,
@@ -246,10 +322,37 @@ pub fn run_dispatch<N: AsRef<[Link]>>(
                 debug_assert!(train_idx != train_idx_curr);
             });
         }
+        #[cfg(feature = "nrel_altrios_verif")]
+        verif_hook::observe(
+            "iter",
+            train_idx_curr.idx(),
+            &link_disp_auths,
+            &links_blocked,
+            &train_disps,
+            &train_idxs_blocked,
+        );
     }
     if !train_idxs_blocked.is_empty() {
+        #[cfg(feature = "nrel_altrios_verif")]
+        verif_hook::observe(
+            "stuck",
+            0,
+            &link_disp_auths,
+            &links_blocked,
+            &train_disps,
+            &train_idxs_blocked,
+        );
         bail!("The following trains got stuck! {:?}", train_idxs_blocked);
     }
+    #[cfg(feature = "nrel_altrios_verif")]
+    verif_hook::observe(
+        "final",
+        0,
+        &link_disp_auths,
+        &links_blocked,
+        &train_disps,
+        &train_idxs_blocked,
+    );
 
     Ok(train_disps[1..]
         .iter()
